@@ -137,7 +137,7 @@ def run_program(it, prog, observe_first):
 
 def run(src, rep, counts):
     from ..par import pmap
-    it = new_interp(src)
+    it = new_interp(src, check_views=True)
     f = src.func("formatstring", "FmtStr.__init__")
     nops = len(operations(it))
     npool = len(base_pool(it))
